@@ -631,6 +631,18 @@ func Solve(o *Obligation) *Result {
 		res.finish()
 		return res
 	}
+	if !o.Cover && o.Goal.S == "false" && st != "unsat" {
+		// the goal is literally false: the obligation holds only if the path is infeasible; when the quick pass did
+		// not show that and the quantifier-free part of the path condition is satisfiable, stop here (not proved)
+		nq := o.script("cover-noq", false)
+		nq = strings.Replace(nq, "(assert (not false))\n", "", 1)
+		if st2, _, _ := runSolver(solvers[0], nq, quick, optSeed); st2 == "sat" {
+			res.Status = "unknown"
+			res.Output = "goal is false and the path was not shown infeasible (its quantifier-free part is satisfiable)"
+			res.finish()
+			return res
+		}
+	}
 	type r struct {
 		st, out, name string
 		secs          float64
